@@ -229,6 +229,12 @@ func runC10(cfg *Cfg, rec *ev.Rec) {
 			judgeDecode(rec, ks[i], cs[i])
 		}
 	}
+	xk, xc := gen.SmallXKeys()
+	for i := range xk {
+		if cfg.mine(i) {
+			judgeDecode(rec, xk[i], xc[i])
+		}
+	}
 	n := cfg.n(20000, 2000000)
 	for i := 0; i < n; i++ {
 		switch i % 10 {
